@@ -197,6 +197,9 @@ def run_federated_experiment(
     state = init_state
     start_round_num = 1
   client_sampler.set_round_num(start_round_num)
+  # Last completed round; the loop below does not run at all when resuming
+  # from a checkpoint of the final round (or when num_rounds is 0).
+  round_num = start_round_num - 1
 
   start = time.time()
   for round_num in range(start_round_num, config.num_rounds + 1):
